@@ -670,6 +670,55 @@ def separate_rule(ctx, d6):
             d6.ok(cons, 'self.data %s -= operand data through one index_overlap result' % ('' if same else '[left]'), f, a.stmt)
         else:
             d6.fail(cons, 'form', 'subtraction is not of exactly the operand data (%s -= %s)' % (a.target, a.value), f, a.stmt)
+    # multi-phase receiver: six package/phase-set combinations, each subtracts the operand exactly once
+    mf = prog.method('MaterialIndexer', 'separate_out', rel=IX)
+    o = mf.params[1]
+    mps, _ = run_paths(mf.node, max_paths=2000)
+    seen = {}
+    for p in mps:
+        if p.raised:
+            continue
+        aug = [e for e in p.events if (e.kind == 'augstore' and e.target.startswith('self.data'))
+               or (e.kind == 'augname' and e.extra is not None and e.extra.pretty() == 'self.data')]
+        same_pkg = rimplied(p, lambda t: t in ('(self._chemicals is %s.chemicals)' % o, '(%s.chemicals is self._chemicals)' % o))
+        is_mat = implied(p.conds, lambda e: isinstance(e, ast.Call) and 'MaterialIndexer' in src(e))
+        same_ph = rimplied(p, lambda t: t in ('(self._phases == %s.phases)' % o, '(%s.phases == self._phases)' % o))
+        key = 'multi-phase operand=%s, same phases=%s, same package=%s' % (is_mat, same_ph, same_pkg)
+        skip = any(e.kind == 'continue' for e in p.events)
+        if skip:
+            continue      # empty phase row of the operand: nothing to subtract
+        okk = len(aug) == 1 and aug[0].op == 'Sub'
+        why = 'expected exactly one "-=" into the receiver data, found %d' % len(aug)
+        if okk:
+            a = aug[0]
+            vt = a.value.pretty()
+            from_operand = vt.startswith('%s.data' % o) or any(l.kind == 'loop' and l.value is not None and '%s.data' % o in l.value.pretty() for l in p.events)
+            if not from_operand:
+                okk, why = False, 'the amount subtracted (%s) is not the operand data' % vt
+            elif same_pkg is False:
+                # cross-package: positions through CAS numbers of exactly the entries subtracted
+                if not ('.indices(' in a.target and 'CASs' in a.target):
+                    okk, why = False, 'cross-package subtraction does not remap positions through CAS numbers (%s)' % a.target
+                else:
+                    rhs_idx = [src(x.slice) for x in ast.walk(a.stmt.value) if isinstance(x, ast.Subscript)]
+                    comp = [x for x in ast.walk(a.stmt.target) if isinstance(x, ast.Name)]
+                    # the comprehension that builds the receiver positions iterates the same index used on the right-hand side
+                    defs = {src(n.targets[0]): n.value for n in walk_no_nested(mf.node) if isinstance(n, ast.Assign) and len(n.targets) == 1}
+                    tgt_idx_names = {x.id for x in comp}
+                    gathers = [v for k_, v in defs.items() if k_ in tgt_idx_names and isinstance(v, ast.Call) and src(v.func).endswith('.indices')]
+                    iters = {src(g.iter) for v in gathers for c_ in ast.walk(v) if isinstance(c_, ast.ListComp) for g in c_.generators}
+                    if not any(any(it in r for it in iters) for r in rhs_idx):
+                        okk, why = False, 'receiver positions are not built from the same operand index that is subtracted'
+        prev = seen.get(key)
+        seen[key] = (okk and (prev[0] if prev else True), why if not okk else (prev[1] if prev else ''), p)
+    for key, (okk, why, p) in sorted(seen.items()):
+        cons = 'MaterialIndexer.separate_out[%s]' % key
+        if okk:
+            d6.ok(cons, 'the operand is subtracted exactly once, at its own phase row, positions remapped through CAS when packages differ', mf)
+        else:
+            d6.fail(cons, 'form', why, mf, mf.node)
+    if len(seen) < 5:
+        raise AnalysisError('MaterialIndexer.separate_out: expected >= 5 package/phase combinations, found %d' % len(seen))
     g = prog.method('Stream', 'separate_out', rel=ST)
     ps, _ = run_paths(g.node)
     okk = True
